@@ -25,6 +25,8 @@ import (
 	ftkeeper "github.com/jackalLabs/canine-chain/v4/x/filetree/keeper"
 	fttypes "github.com/jackalLabs/canine-chain/v4/x/filetree/types"
 	minttypes "github.com/jackalLabs/canine-chain/v4/x/jklmint/types"
+	notiftypes "github.com/jackalLabs/canine-chain/v4/x/notifications/types"
+	rnstypes "github.com/jackalLabs/canine-chain/v4/x/rns/types"
 	sttypes "github.com/jackalLabs/canine-chain/v4/x/storage/types"
 	abci "github.com/tendermint/tendermint/abci/types"
 )
@@ -45,9 +47,14 @@ func eventsDigest(evs []abci.Event) string {
 }
 
 func (c *Chain) deliverSigned(msg sdk.Msg, signer int) abci.ResponseDeliverTx {
+	return c.deliverSignedTx([]sdk.Msg{msg}, signer)
+}
+
+// deliverSignedTx: one transaction of several messages, all signed by the same account
+func (c *Chain) deliverSignedTx(msgs []sdk.Msg, signer int) abci.ResponseDeliverTx {
 	txCfg := app.MakeEncodingConfig().TxConfig
 	b := txCfg.NewTxBuilder()
-	b.SetMsgs(msg)
+	b.SetMsgs(msgs...)
 	b.SetGasLimit(20_000_000)
 	b.SetFeeAmount(sdk.NewCoins(sdk.NewInt64Coin("ujkl", 50_000)))
 	priv := c.Privs[signer]
@@ -128,6 +135,36 @@ func runDet(seed int64, histories, steps int, out *Emitter) {
 					err := c.GovSetParams(c.Ctx(), sttypes.ModuleName, ch)
 					out.Emit(map[string]interface{}{"mod": "det", "hist": hi, "kind": "gov", "h": c.H, "change": fmt.Sprint(ch), "err": fmt.Sprint(err)})
 				}
+				continue
+			}
+			if r.Intn(7) == 0 {
+				// names and the modules that resolve them (notifications, storage referrals), in transactions of several
+				// messages — some of which fail as a whole after a name was written and resolved inside them: what such a
+				// transaction leaves behind in a node's memory must not matter later, nor after that node restarts
+				owner := g.user()
+				other := g.user()
+				si := idx[owner]
+				name := []string{"demo.jkl", "carl.jkl", "shop.jkl"}[r.Intn(3)]
+				var msgs []sdk.Msg
+				switch r.Intn(5) {
+				case 0:
+					msgs = []sdk.Msg{&rnstypes.MsgRegisterName{Creator: owner, Name: name, Years: 1, Data: "{}", SetPrimary: false}}
+				case 1:
+					msgs = []sdk.Msg{&rnstypes.MsgTransfer{Creator: owner, Name: name, Receiver: other},
+						&notiftypes.MsgCreateNotification{Creator: owner, To: name, Contents: fmt.Sprintf("{\"n\":%d}", i), PrivateContents: []byte{}},
+						&rnstypes.MsgDelist{Creator: owner, Name: "nosuchlisting.jkl"}} // fails: the whole transaction is rolled back
+				case 2:
+					msgs = []sdk.Msg{&rnstypes.MsgTransfer{Creator: owner, Name: name, Receiver: other},
+						&notiftypes.MsgCreateNotification{Creator: owner, To: name, Contents: fmt.Sprintf("{\"n\":%d}", i), PrivateContents: []byte{}}}
+				case 3:
+					msgs = []sdk.Msg{&notiftypes.MsgCreateNotification{Creator: owner, To: name, Contents: fmt.Sprintf("{\"m\":%d}", i), PrivateContents: []byte{}}}
+				default:
+					msgs = []sdk.Msg{&sttypes.MsgBuyStorage{Creator: owner, ForAddress: owner, DurationDays: 30, Bytes: 3_000_000_000, PaymentDenom: "ujkl", Referral: name}}
+				}
+				res := c.deliverSignedTx(msgs, si)
+				out.Emit(map[string]interface{}{"mod": "det", "hist": hi, "kind": "tx", "i": i, "h": c.H, "msg": fmt.Sprintf("names/%d msgs", len(msgs)), "code": res.Code, "gasUsed": res.GasUsed, "gasWanted": res.GasWanted,
+					"events": eventsDigest(res.Events), "data": hex.EncodeToString(res.Data)})
+				out.Count("det.names", res.Code == 0)
 				continue
 			}
 			var msg sdk.Msg
